@@ -91,9 +91,9 @@ func waitEntered(g *gateCtl, d time.Duration) (string, bool) {
 
 // c06single runs one operation sequence deterministically. ops: 'A' append event, 'W' raw write, 'S' step.
 func c06single(w *W, y *yielder, policy string, cap, prefill int, ops string, tagN int) (string, string) {
-	c := asyncCase{Policy: policy, Buf: cap, Appender: "gated"}
+	c := asyncCase{Policy: policy, Buf: cap, Appender: "gated", ViaCfg: tagN%4 == 3} // one case in four is built by Refresh from a configuration map
 	rec.take()
-	l, sinkName, stop, err := buildAsync(c, "")
+	l, sinkName, stop, err := buildAsync(c, "c06tag")
 	if err != nil {
 		return "start failed: " + err.Error(), "start"
 	}
@@ -346,9 +346,9 @@ func c06porcupine(policy string, cap int, prefilled []string) porcupine.Model {
 
 // c06concurrent: P producers against a parked consumer, then drain.
 func c06concurrent(w *W, policy string, cap, prefill, P, opsEach int, ci int) (string, string) {
-	c := asyncCase{Policy: policy, Buf: cap, Appender: "gated"}
+	c := asyncCase{Policy: policy, Buf: cap, Appender: "gated", ViaCfg: ci%4 == 3}
 	rec.take()
-	l, sinkName, stop, err := buildAsync(c, "")
+	l, sinkName, stop, err := buildAsync(c, "c06tag")
 	if err != nil {
 		return "start failed: " + err.Error(), "start"
 	}
@@ -677,6 +677,11 @@ func c06console(w *W, c asyncCase, ci int) string {
 }
 
 func c06Worker(w *W) {
+	log.RegisterTag("c06tag")
+	if w.Spec.Kind == "builtinfile" {
+		asyncBuiltinFile(w, "C06")
+		return
+	}
 	if w.Spec.Kind == "manydiscards" {
 		c06ManyDiscards(w)
 		return
@@ -908,6 +913,7 @@ func init() {
 				}
 				specs = append(specs, s)
 			}
+			specs = append(specs, d.NewSpec("builtinfile", "builtinfile", 72, 12))
 			md := d.NewSpec("manydiscards", "manydiscards", 70, 12)
 			md.TimeoutS = int(d.Pick(300, 600))
 			specs = append(specs, md)
